@@ -403,6 +403,22 @@ func (v *VC) modOfCall(fn *ssa.Function, c *ssa.CallCommon, root func(ssa.Value)
 		if ct.ModNothing {
 			return
 		}
+		if len(ct.Mods) > 0 {
+			precise := true
+			for _, cl := range ct.Mods {
+				if len(cl.Kinds) == 0 {
+					precise = false
+				}
+			}
+			if precise {
+				for _, cl := range ct.Mods {
+					for _, k := range cl.Kinds {
+						m.unknown[k] = true
+					}
+				}
+				return
+			}
+		}
 		m.call = true
 		return
 	}
